@@ -244,5 +244,5 @@ Proof.
   - reflexivity.
   - destruct (shr_spec a (8 * (nSize - 3)) Ha ltac:(lia)) as (Hsv & Hsb & Hsl).
     rewrite (getLow64_spec _ Hsb) by (rewrite Hsl, Hl; unfold WIDTH; lia).
-    rewrite Hsv. unfold u32, u64, two32. rewrite Z.shiftr_div_pow2 by lia. reflexivity.
+    rewrite Hsv. unfold u32, u64, two32. rewrite <- (Z.shiftr_div_pow2 (uval a)) by lia. reflexivity.
 Qed.
